@@ -230,7 +230,7 @@ def _mk_np24(d, rng_v, maxint, ns, values="random", rng=None, shank_perm=None):
                 line = f"imAiRangeMin=-{rng_v}\n"
             elif line.startswith("imMaxInt"):
                 line = f"imMaxInt={maxint}\n"
-            elif line.startswith("~snsShankMap") and shank_perm is not None:
+            elif line.lstrip("~").startswith("snsShankMap") and shank_perm is not None:
                 import re
                 ent = re.findall(r"\((\d+):(\d+):(\d+):(\d+)\)", line)
                 hdr = line[:line.index(")") + 1]
@@ -245,6 +245,8 @@ def native_end_to_end(rng, rng_v, maxint, ns, window, nshank_assign):
         perm = None
         if nshank_assign is not None:
             ids = np.sort(rng.choice(4, nshank_assign, replace=False))       # any subset of the four shanks, e.g. {1, 3}
+            if nshank_assign == 2:
+                ids = np.array([1, 3])                                      # always include one map whose shank ids are not 0..n-1
             perm = ids[rng.integers(0, nshank_assign, 384)]
             perm[:nshank_assign] = ids
         ap, D = _mk_np24(d, rng_v, maxint, ns, rng=rng, shank_perm=perm)
